@@ -1644,6 +1644,10 @@ func main() {
 		childMain(os.Args[2], os.Args[3])
 		return
 	}
+	if len(os.Args) >= 3 && os.Args[1] == "-fault-child" {
+		faultChildMain(os.Args[2])
+		return
+	}
 	r := vf.Start("C18", "exploration")
 	r.Watchdog(time.Duration(r.Pick(15, 60)) * time.Minute)
 	r.SetRule("a case = one generated history (<= 40 operations over <= 5 keys / entity names, storage-only, database-only or both in one directory) run on a fresh directory " +
@@ -1743,6 +1747,7 @@ func main() {
 		})
 	}
 	r.Count("child_process_segments", segments)
+	r.Guard("write faults", func() { writeFaults(r, base) })
 	cleanup()
 
 	// coverage floors
@@ -1756,5 +1761,8 @@ func main() {
 	r.Floor("entity listings with live entities", int(r.Counter("entity_listings_nonempty")), r.Pick(40, 1500))
 	r.Floor("entity name classes", r.DistinctN("name_class"), 10)
 	r.Floor("child process segments", segments, r.Pick(20, 2000))
+	r.Floor("write-fault cases", int(r.Counter("fault_cases")), r.Pick(120, 2000)*9/10)
+	r.Floor("write-fault calls refused by the file system", int(r.Counter("fault_calls_that_returned_an_error")), r.Pick(100, 1500))
+	r.Floor("write-fault calls that succeeded under the limit", int(r.Counter("fault_calls_that_returned_nil")), r.Pick(50, 800))
 	r.Finish()
 }
